@@ -85,6 +85,38 @@ class SuperRef:
         self.obj, self.after = obj, after
 
 
+_NP = []
+
+
+def numpy_mod(required=True):
+    if not _NP:
+        try:
+            import numpy
+            _NP.append(numpy)
+        except ImportError:
+            _NP.append(None)
+    if _NP[0] is None and required:
+        raise ElabError('numpy is not available to bridge array bookkeeping')
+    return _NP[0]
+
+
+class NativeObj:
+    """stand-in for an object of an external library whose only role is layout arithmetic"""
+
+
+class TextPathStub(NativeObj):
+    """matplotlib.textpath.TextPath: only the extent of a label is used (symbol widths); a fixed-pitch estimate"""
+
+    def __init__(self, pos, text, size=12, **kw):
+        self.text, self.size = str(text), size
+
+    def get_extents(self):
+        e = NativeObj()
+        e.width = 0.6 * self.size * len(self.text)
+        e.height = float(self.size)
+        return e
+
+
 class ModuleRef:
     def __init__(self, name):
         self.name = name
@@ -92,6 +124,14 @@ class ModuleRef:
 
 class SetList(list):
     """order-preserving stand-in for a Python set (iteration order of a set of objects is arbitrary anyway)"""
+
+
+class Closure:
+    """nested function: reads of enclosing variables see their value at call time (late binding), objects are shared;
+    rebinding an enclosing variable (nonlocal) is outside the subset"""
+
+    def __init__(self, node, frame):
+        self.node, self.frame = node, frame
 
 
 class Lambda:
@@ -200,6 +240,16 @@ class Elab:
 
     # ------------------------------------------------------------------ attribute access
     def getattr_(self, v, name, frame=None):
+        if isinstance(v, NativeObj):
+            if not hasattr(v, name):
+                raise PyExc('AttributeError', '%s has no attribute %s' % (type(v).__name__, name))
+            a = getattr(v, name)
+            return ('npfn', a) if callable(a) else a
+        if numpy_mod(False) is not None and isinstance(v, (numpy_mod().ndarray, numpy_mod().generic)):
+            a = getattr(v, name, None)
+            if a is None and not hasattr(v, name):
+                raise PyExc('AttributeError', 'ndarray has no attribute %s' % name)
+            return ('npfn', a) if callable(a) else (tuple(a) if name == 'shape' else a)
         if isinstance(v, ObjV):
             if name in v.attrs:
                 return v.attrs[name]
@@ -259,6 +309,12 @@ class Elab:
             return v.__name__
         if v in (ast.NodeTransformer, ast.NodeVisitor) and name in ('visit', 'generic_visit'):
             return ('visitor_unbound', name)
+        if isinstance(v, ModuleRef) and v.name == 'numpy':
+            # array bookkeeping of structure-only code (grids of symbols, adjacency matrices): bridged to the real library
+            np = numpy_mod()
+            if not hasattr(np, name):
+                raise PyExc('AttributeError', 'numpy has no attribute %s' % name)
+            return ('npfn', getattr(np, name))
         if isinstance(v, ModuleRef):
             if v.name == 'math':
                 return ('mathfn', name) if name not in ('pi', 'e', 'inf') else getattr(math, name)
@@ -291,6 +347,8 @@ class Elab:
             if f.selfobj is not None:
                 a = [f.selfobj] + a
             return self.call_function(f.fn, f.cinfo, a, kwargs, f.rel)
+        if isinstance(f, Closure):
+            return self.call_function(f.node, None, list(args), kwargs, enclosing=f.frame)
         if isinstance(f, Lambda):
             fr = dict(f.frame)
             for p, v in zip(f.node.args.args, args):
@@ -299,6 +357,11 @@ class Elab:
         if isinstance(f, tuple) and f and f[0] == 'native':
             _, recv, name = f
             return self.native_method(recv, name, args, kwargs)
+        if isinstance(f, tuple) and f and f[0] == 'npfn':
+            try:
+                return f[1](*args, **kwargs)
+            except (ValueError, TypeError, IndexError) as e:
+                raise PyExc(type(e).__name__, str(e))
         if isinstance(f, tuple) and f and f[0] == 'mathfn':
             fn = getattr(math, f[1], None)
             if fn is None:
@@ -543,9 +606,38 @@ class Elab:
                 return None if name == 'update' else tgt
             if name == 'copy':
                 return SetList(recv)
+            if name in ('intersection', 'difference', 'symmetric_difference', 'issubset', 'issuperset', 'isdisjoint'):
+                other = list(args[0]) if args else []
+                if name == 'intersection':
+                    return SetList(x for x in recv if self.contains(other, x))
+                if name == 'difference':
+                    return SetList(x for x in recv if not self.contains(other, x))
+                if name == 'symmetric_difference':
+                    return SetList([x for x in recv if not self.contains(other, x)] + [x for x in other if not self.contains(recv, x)])
+                if name == 'issubset':
+                    return all(self.contains(other, x) for x in recv)
+                if name == 'issuperset':
+                    return all(self.contains(recv, x) for x in other)
+                return not any(self.contains(other, x) for x in recv)
+            if name == 'pop':
+                if not recv:
+                    raise PyExc('KeyError', 'pop from an empty set')
+                return list.pop(recv, 0)
+            if name == 'clear':
+                del recv[:]
+                return None
         if isinstance(recv, list) and name in ('append', 'extend', 'reverse', 'copy', 'insert', 'pop', 'index', 'remove', 'count', 'clear', 'sort'):
             if name == 'sort' and kwargs:
-                raise ElabError('list.sort with key')
+                key = kwargs.get('key')
+                keyed = [(self.call(key, [x], {}, {}) if key is not None else x, i, x) for i, x in enumerate(recv)]
+                try:
+                    keyed.sort(key=lambda t: (t[0], t[1]), reverse=False)
+                except TypeError as e:
+                    raise PyExc('TypeError', str(e))
+                if self.truth(kwargs.get('reverse', False)):
+                    keyed.reverse()
+                recv[:] = [x for _, _, x in keyed]
+                return None
             try:
                 return getattr(recv, name)(*args)
             except (ValueError, IndexError) as e:
@@ -627,7 +719,7 @@ class Elab:
                 return None
             raise ElabError('setattr on non-object')
         if name == 'callable':
-            return isinstance(args[0], (FuncRef, ClassRef, Lambda)) or (isinstance(args[0], tuple) and args[0] and args[0][0] in ('native', 'builtin', 'mathfn'))
+            return isinstance(args[0], (FuncRef, ClassRef, Lambda, Closure)) or (isinstance(args[0], tuple) and args[0] and args[0][0] in ('native', 'builtin', 'mathfn'))
         if name == 'id':
             return args[0].oid if isinstance(args[0], ObjV) else id(args[0])
         if name == 'super':
@@ -694,8 +786,12 @@ class Elab:
         finally:
             self.depth -= 1
 
-    def call_function(self, fn, cinfo, args, kwargs, rel=None):
+    def call_function(self, fn, cinfo, args, kwargs, rel=None, enclosing=None):
         frame = {'__cls__': cinfo, '__rel__': (cinfo.rel if cinfo else rel)}
+        if enclosing is not None:
+            if any(isinstance(x, ast.Nonlocal) for x in ast.walk(fn)):
+                raise ElabError('nonlocal in nested function')
+            frame = dict(enclosing)
         params = fn.args.args
         defaults = fn.args.defaults
         nd = len(defaults)
@@ -719,7 +815,7 @@ class Elab:
             frame[p.arg] = kwargs.get(p.arg, self.eval(d, frame) if d is not None else None)
         if fn.args.vararg is not None:
             frame[fn.args.vararg.arg] = list(args[len(params):])
-        if params and args:
+        if params and args and enclosing is None:
             frame['__self__'] = args[0]
         try:
             self.exec_block(fn.body, frame)
@@ -811,6 +907,8 @@ class Elab:
                             frame[a.asname or a.name] = FuncRef(fr[0][1], None, None, fr[0][0])
                         elif s.module in ('math',):
                             frame[a.asname or a.name] = ('mathfn', a.name)
+                        elif s.module == 'matplotlib.textpath' and a.name == 'TextPath':
+                            frame[a.asname or a.name] = ('npfn', TextPathStub)
         elif isinstance(s, ast.Pass):
             return
         elif isinstance(s, ast.Break):
@@ -847,8 +945,10 @@ class Elab:
                     raise ElabError('del target')
         elif isinstance(s, ast.Global):
             frame.setdefault('__globaldecl__', set()).update(s.names)
-        elif isinstance(s, (ast.FunctionDef, ast.ClassDef)):
-            raise ElabError('nested definition')
+        elif isinstance(s, ast.FunctionDef):
+            frame[s.name] = Closure(s, frame)
+        elif isinstance(s, ast.ClassDef):
+            raise ElabError('nested class definition')
         else:
             raise ElabError('statement %s' % type(s).__name__)
 
@@ -869,6 +969,16 @@ class Elab:
                             pass
             self.modglobals[rel] = d
         return self.modglobals[rel]
+
+    def eval_index(self, sl, frame):
+        """subscript expression -> Python index object (slices and tuples of slices included)"""
+        if isinstance(sl, ast.Slice):
+            return slice(self.eval(sl.lower, frame) if sl.lower is not None else None,
+                         self.eval(sl.upper, frame) if sl.upper is not None else None,
+                         self.eval(sl.step, frame) if sl.step is not None else None)
+        if isinstance(sl, ast.Tuple) and any(isinstance(x, ast.Slice) for x in sl.elts):
+            return tuple(self.eval_index(x, frame) for x in sl.elts)
+        return self.eval(sl, frame)
 
     def assign(self, t, v, frame):
         if isinstance(t, ast.Name):
@@ -892,6 +1002,12 @@ class Elab:
                 raise ElabError('attribute store on %s' % type(o).__name__)
         elif isinstance(t, ast.Subscript):
             c = self.eval(t.value, frame)
+            if numpy_mod(False) is not None and isinstance(c, numpy_mod().ndarray):
+                try:
+                    c[self.eval_index(t.slice, frame)] = v
+                except (IndexError, ValueError, TypeError) as e:
+                    raise PyExc(type(e).__name__, str(e))
+                return
             k = self.eval(t.slice, frame) if not isinstance(t.slice, ast.Slice) else None
             if isinstance(c, (list, dict)) and k is not None:
                 try:
@@ -974,8 +1090,12 @@ class Elab:
                 return FuncRef(fr[0][1], None, None, fr[0][0])
             if e.id in ('math', 'py4hw', 'ast', 'astunparse', 'textwrap', 'inspect', 'copy'):
                 return ModuleRef(e.id)
+            if e.id in ('np', 'numpy'):
+                return ModuleRef('numpy')
             if e.id in ('True', 'False', 'None'):
                 return {'True': True, 'False': False, 'None': None}[e.id]
+            if e.id == 'object':
+                return object
             if e.id in ('len', 'range', 'enumerate', 'zip', 'reversed', 'sorted', 'int', 'float', 'str', 'bool', 'list', 'tuple', 'abs', 'min', 'max', 'sum', 'round',
                         'pow', 'divmod', 'hex', 'bin', 'ord', 'chr', 'dict', 'print', 'isinstance', 'type', 'hasattr', 'getattr', 'setattr', 'callable', 'id',
                         'super', 'Exception', 'any', 'all', 'set', 'frozenset', 'repr', 'iter', 'next', 'format', 'map', 'filter', 'delattr', 'TranspilationException', 'eval'):
@@ -1027,6 +1147,11 @@ class Elab:
             for op, r in zip(e.ops, e.comparators):
                 rv = self.eval(r, frame)
                 try:
+                    npm = numpy_mod(False)
+                    if npm is not None and (isinstance(l, npm.ndarray) or isinstance(rv, npm.ndarray)) and not isinstance(op, (ast.Is, ast.IsNot, ast.In, ast.NotIn)):
+                        # element-wise comparison of an array (single comparator): the array result is returned as it is
+                        import operator as _op
+                        return {ast.Eq: _op.eq, ast.NotEq: _op.ne, ast.Lt: _op.lt, ast.LtE: _op.le, ast.Gt: _op.gt, ast.GtE: _op.ge}[type(op)](l, rv)
                     if isinstance(op, ast.Is):
                         res = l is rv
                     elif isinstance(op, ast.IsNot):
@@ -1071,6 +1196,11 @@ class Elab:
             return {self.hashable(self.eval(k, frame)): self.eval(v, frame) for k, v in zip(e.keys, e.values)}
         if isinstance(e, ast.Subscript):
             c = self.eval(e.value, frame)
+            if numpy_mod(False) is not None and isinstance(c, numpy_mod().ndarray):
+                try:
+                    return c[self.eval_index(e.slice, frame)]
+                except (IndexError, ValueError, TypeError) as ex:
+                    raise PyExc(type(ex).__name__, '%s (%s)' % (ex, norm(e)[:50]))
             if isinstance(e.slice, ast.Slice):
                 lo = self.eval(e.slice.lower, frame) if e.slice.lower is not None else None
                 hi = self.eval(e.slice.upper, frame) if e.slice.upper is not None else None
@@ -1100,6 +1230,15 @@ class Elab:
             return out
         if isinstance(e, ast.ListComp) and len(e.generators) >= 1:
             return self.comp(e.elt, e.generators, frame)
+        if isinstance(e, ast.DictComp):
+            pairs = self.comp(ast.Tuple(elts=[e.key, e.value], ctx=ast.Load()), e.generators, frame)
+            return {self.hashable(k): v for k, v in pairs}
+        if isinstance(e, ast.SetComp):
+            out = SetList()
+            for x in self.comp(e.elt, e.generators, frame):
+                if not any(self.eq(x, y) for y in out):
+                    out.append(x)
+            return out
         if isinstance(e, ast.GeneratorExp):
             return self.comp(e.elt, e.generators, frame)
         if isinstance(e, ast.Lambda):
